@@ -164,8 +164,10 @@ pub(crate) fn expect(cfg: &Cfg, c: &Content) -> String {
             AttrC::Path { segs, .. } => format!("typed:as4path:{}", path_text(segs, true)),
             AttrC::Raw { .. } => format!("unimpl:{}:{}:{}", attr_flags(a), attr_code(a), hex(&v)),
             // how to_owned() presents MP_REACH_NLRI / MP_UNREACH_NLRI (today: as unrecognised attributes) is not
-            // content; flags, code and length are, and the NLRI are judged through mw / ma
-            _ => "*".to_string(),
+            // content; flags, code, length and the value octets are (`mp:HEX`: presented as an unrecognised
+            // attribute it has these flags, this code and these octets - of a family or not, the reserved
+            // octet included; another presentation is not judged here, the NLRI are judged through mw / ma)
+            _ => format!("mp:{}", hex(&v)),
         };
         format!("{}:{}:{}:{}", attr_flags(a), attr_code(a), v.len(), owned)
     }).collect();
@@ -192,8 +194,13 @@ pub(crate) fn expect(cfg: &Cfg, c: &Content) -> String {
     let mw: Vec<String> = unreach.as_ref().map(|x| x.2.clone()).unwrap_or_default();
     let ma: Vec<String> = reach.as_ref().map(|x| x.2.clone()).unwrap_or_default();
     {
-        put("mw", match &unreach { Some((t, _, _)) => format!("{}:{}", t, lst(&mw)), None => "none".into() });
-        put("ma", match &reach { Some((t, _, _)) => format!("{}:{}", t, lst(&ma)), None => "none".into() });
+        // C01 speaks of the NLRI of every SUPPORTED family. Of a section of an AFI/SAFI outside the 13 it demands
+        // only that no NLRI is reported that was not encoded (there is none): `*` = how the section's type is named
+        // (`U<afi>.<safi>`, no iterator at all, ...) is not judged - in `mw` / `ma`, `tw` / `ta` and `fams` alike
+        let (unsup_w, unsup_a) = (matches!(unreach, Some((_, None, _))), matches!(reach, Some((_, None, _))));
+        let star = |u: bool, t: &String| if u { "*".to_string() } else { t.clone() };
+        put("mw", match &unreach { Some((t, _, _)) => format!("{}:{}", star(unsup_w, t), lst(&mw)), None => "none".into() });
+        put("ma", match &reach { Some((t, _, _)) => format!("{}:{}", star(unsup_a, t), lst(&ma)), None => "none".into() });
         put("w", lst(&[mw.clone(), cw.clone()].concat()));
         put("a", lst(&[ma.clone(), ca.clone()].concat()));
         put("wv", format!("ok:{}", lst(&[cw.clone(), mw.clone()].concat())));
@@ -209,11 +216,13 @@ pub(crate) fn expect(cfg: &Cfg, c: &Content) -> String {
             if let Some((f, l)) = mp { if !both { parts.push(format!("{}:{}", ty(f), lst(l))); } }
             if parts.is_empty() { "-".into() } else { parts.join("&") }
         };
-        put("tw", typed(&cw, unreach.as_ref().and_then(|x| x.1).map(|f| (f, &mw))));
-        put("ta", typed(&ca, reach.as_ref().and_then(|x| x.1).map(|f| (f, &ma))));
+        // (`*:-` next to an unsupported section: a T may be answered without an item - `T:-` or `T:err`)
+        let also = |u: bool, s: String| if !u { s } else if s == "-" { "*:-".to_string() } else { format!("{}&*:-", s) };
+        put("tw", also(unsup_w, typed(&cw, unreach.as_ref().and_then(|x| x.1).map(|f| (f, &mw)))));
+        put("ta", also(unsup_a, typed(&ca, reach.as_ref().and_then(|x| x.1).map(|f| (f, &ma)))));
         put("fams", format!("{},{},{},{}",
             if c.wd.is_empty() { "-".into() } else { conv_ty.clone() }, if c.ann.is_empty() { "-".into() } else { conv_ty.clone() },
-            unreach.as_ref().map(|x| x.0.clone()).unwrap_or("-".into()), reach.as_ref().map(|x| x.0.clone()).unwrap_or("-".into())));
+            unreach.as_ref().map(|x| star(unsup_w, &x.0)).unwrap_or("-".into()), reach.as_ref().map(|x| star(unsup_a, &x.0)).unwrap_or("-".into())));
     }
     // End-of-RIB (RFC 4724 2): the empty UPDATE, or an UPDATE holding nothing but an MP_UNREACH_NLRI without
     // withdrawn routes. "Carries NLRI" is a fact about the octets: a non-empty conventional section, NLRI in
@@ -240,12 +249,15 @@ pub(crate) fn expect(cfg: &Cfg, c: &Content) -> String {
     put("pit", format!("{}/{}", pit(2), pit(17)));
     put("cnh", val(3).map(|v| format!("uni:{}", hex(&v))).unwrap_or("-".into()));
     // the MP next hop: the next-hop field read by the family's rule; there is no rule for an AFI/SAFI
-    // outside the 13 (`mp_next_hop()` is an Err, whatever the field holds). The reserved octet plays no role.
+    // outside the 13 and C01 does not say what `mp_next_hop()` answers then (today an Err; `Unimplemented`
+    // would do as well): `*` = not judged. The reserved octet plays no role.
     let reach_nh: Option<(usize, Vec<u8>)> = c.attrs.iter().find(|a| attr_code(a) == 14).and_then(|a| if let AttrC::Reach { fam, nh, .. } = a { Some((*fam, nh.clone())) } else { None });
-    put("mnh", match (&reach, &reach_nh) { (None, _) => "-".into(), (Some(_), Some((f, nh))) => nh_text(*f, nh), (Some(_), None) => "err".into() });
+    put("mnh", match (&reach, &reach_nh) { (None, _) => "-".into(), (Some(_), Some((f, nh))) => nh_text(*f, nh), (Some(_), None) => "*".into() });
     // find_next_hop(k): the MP next hop when the MP_REACH_NLRI is of family k; for IPv4 unicast
-    // otherwise the conventional NEXT_HOP; nothing for every other family
+    // otherwise the conventional NEXT_HOP; nothing for every other family (`U<afi>.<safi>:*`: what is
+    // answered for the unsupported AFI/SAFI of the MP_REACH_NLRI itself is not judged)
     let mut fnh: Vec<String> = Vec::new();
+    if let Some(AttrC::ReachU { afi, safi, .. }) = c.attrs.iter().find(|a| attr_code(a) == 14) { fnh.push(format!("{}:*", afisafi_name((*afi, *safi)))); }
     for (i, (name, k)) in FAM_NAMES.iter().enumerate() {
         match &reach_nh {
             Some((f, nh)) if *f == i => fnh.push(format!("{}:{}", name, nh_text(*f, nh))),
@@ -273,8 +285,10 @@ fn typed_ok(want: &str, got: &str) -> bool {
     let parts = |s: &str| -> Vec<(String, String)> { if s == "-" { vec![] } else { s.split('&').filter_map(|p| p.split_once(':').map(|(a, b)| (a.to_string(), b.to_string()))).collect() } };
     let fam = |n: &str| n.strip_suffix("Addpath").unwrap_or(n).to_string();
     let (w, g) = (parts(want), parts(got));
-    w.iter().all(|(n, l)| l == "*" || g.iter().any(|(n2, l2)| n2 == n && l2 == l))
-        && g.iter().all(|(n2, _)| w.iter().any(|(n, _)| fam(n) == fam(n2)))
+    // `*:-` (the MP section is of an unsupported AFI/SAFI): answers without an item are not judged
+    let lax = w.iter().any(|(n, _)| n == "*");
+    w.iter().all(|(n, l)| n == "*" || l == "*" || g.iter().any(|(n2, l2)| n2 == n && l2 == l))
+        && g.iter().all(|(n2, l2)| w.iter().any(|(n, _)| fam(n) == fam(n2)) || (lax && (l2 == "-" || l2 == "err")))
 }
 
 fn fnv(s: &str) -> String {
@@ -571,13 +585,27 @@ fn gen_full(rng: &mut Rng, target: usize) -> (Cfg, Content) {
 }
 
 /// conventional announcements appended until the encoding has exactly `target` octets
-/// (/32s, then shorter prefixes for the remainder; a remainder the NLRI grammar cannot fill is left)
+/// (/32s, then shorter prefixes for the remainder. With ADD-PATH an NLRI has 5 .. 9 octets: the /32s stop
+/// early enough for the remainder to be one or two shorter prefixes; a remainder of 1 .. 4 octets, which no
+/// NLRI fills, becomes an unrecognised optional transitive attribute of that size (3 octets and up) or value
+/// octets of the last unrecognised attribute there is (1, 2). Whatever cannot be filled even so is left.)
 fn fill_to(rng: &mut Rng, cfg: &Cfg, c: &mut Content, target: usize) {
     let cfg = cfg.clone();
     let ap = cfg_rx(&cfg, (1, 1));
     let per = if ap { 9 } else { 5 };
+    let base = if ap { 5 } else { 1 };
     let mut have = ref_encode(&cfg, c).len();
-    while have + per <= target {
+    // independent of ADD-PATH: a remainder below the smallest NLRI goes into the attribute section
+    if have < target && target - have < base {
+        let room = target - have;
+        if room >= 3 {
+            let code = (200..=255u8).rev().find(|x| canon_flags(*x).is_none() && !c.attrs.iter().any(|a| attr_code(a) == *x));
+            if let Some(code) = code { c.attrs.push(AttrC::Raw { flags: 0xc0, code, ext: false, value: rng.bytes(room - 3) }); have += room; }
+        } else if let Some(AttrC::Raw { ext, value, .. }) = c.attrs.iter_mut().rev().find(|a| matches!(a, AttrC::Raw { .. })) {
+            if (*ext && value.len() + room <= 65535) || value.len() + room <= 255 { value.extend(rng.bytes(room)); have += room; }
+        }
+    }
+    while have + per + (per - 4) <= target || have + per == target {
         c.ann.push(Val { pid: if ap { Some(rng.u32() as u64) } else { None }, plen: 32, addr: rng.bytes(4), ..Default::default() });
         have += per;
     }
@@ -585,9 +613,11 @@ fn fill_to(rng: &mut Rng, cfg: &Cfg, c: &mut Content, target: usize) {
     loop {
         if have >= target { break; }
         let room = target - have;
-        let base = if ap { 5 } else { 1 };
         if room < base { break; }
-        let nb = (room - base).min(4);
+        let mut nb = (room - base).min(4);
+        // ... none of which leaves a remainder below the smallest NLRI
+        let left = room - base - nb;
+        if left > 0 && left < base && nb + left >= base { nb -= base - left; }
         let plen = 8 * nb as u64;
         c.ann.push(Val { pid: if ap { Some(7) } else { None }, plen, addr: crate::props::c05::gen_addr(rng, false, plen, 4), ..Default::default() });
         have += base + nb;
@@ -624,8 +654,8 @@ fn vary_mp(rng: &mut Rng, c: &mut Content) {
 ///   3 AS_PATH / AS4_PATH of hundreds of segments  4 MP_REACH_NLRI / MP_UNREACH_NLRI of > 4096 octets
 ///   5 one unrecognised attribute whose two-octet length is as large as the message allows
 ///   6 CLUSTER_LIST / ATTR_SET / large opaque MP attribute of an unsupported family
-/// The message is then filled to exactly `target` octets with conventional announcements where the
-/// NLRI grammar allows (`exact`).
+/// The message is then filled to exactly `target` octets with conventional announcements (`exact`;
+/// see `fill_to` for a remainder no NLRI fills).
 pub(crate) fn gen_big(rng: &mut Rng, kind: usize, target: usize, exact: bool) -> (Cfg, Content) {
     let four = rng.chance(2, 3);
     let mut ap: Vec<((u16, u8), char)> = Vec::new();
@@ -638,7 +668,15 @@ pub(crate) fn gen_big(rng: &mut Rng, kind: usize, target: usize, exact: bool) ->
     let origin = AttrC::Val { v: V::Origin(rng.below(3) as u8), flags: 0x40, ext: false };
     match kind {
         0 => { c.attrs.push(origin); }
-        1 => { let per = if cfg_rx(&cfg, (1, 1)) { 9 } else { 5 }; c.wd = gen_nlri(rng, &cfg, 0, budget / 2 / per); c.attrs.push(origin); }
+        1 => {
+            // withdrawn routes for one half of the budget, announcements for the other, counted in encoded octets
+            let take = |rng: &mut Rng, room: usize| -> Vec<Val> {
+                let mut l: Vec<Val> = Vec::new(); let mut used = 0usize;
+                'full: loop { for v in gen_nlri(rng, &cfg, 0, 64) { let n = ref_enc(Shape::Pfx, &v).len(); if used + n > room { break 'full; } used += n; l.push(v); } }
+                l
+            };
+            c.wd = take(rng, budget / 2); c.ann = take(rng, budget - budget / 2); c.attrs.push(origin);
+        }
         2 => {
             let which = rng.below(4);
             let rec = [4usize, 8, 20, 12][which as usize];
@@ -662,7 +700,7 @@ pub(crate) fn gen_big(rng: &mut Rng, kind: usize, target: usize, exact: bool) ->
             // hundreds of segments: mostly short ones (incl. empty ones), now and then one of 255
             loop {
                 let n = match rng.below(12) { 0 => 0, 1 => 255, 2 => 254, _ => rng.usize(0, 6) };
-                if used + 2 + w * n > budget { break; }
+                if used + 2 + w * n > budget { if n > 6 { continue; } break; }
                 let ty = if rng.bool() { 2 } else { rng.range(1, 4) as u8 };
                 segs.push((ty, (0..n).map(|_| if w == 4 && rng.chance(1, 4) { rng.u32() } else { rng.below(65536) as u32 }).collect()));
                 used += 2 + w * n;
@@ -716,7 +754,8 @@ pub(crate) fn gen_big(rng: &mut Rng, kind: usize, target: usize, exact: bool) ->
         else if !c.wd.is_empty() { let k = (over / 9).max(1).min(c.wd.len()); c.wd.truncate(c.wd.len() - k); }
         else { c.attrs.pop(); }
     }
-    if exact || kind == 0 { fill_to(rng, &cfg, &mut c, target); }
+    // (kinds 0 and 1 are made of conventional NLRI: filled in any case, so that they land in their size class)
+    if exact || kind <= 1 { fill_to(rng, &cfg, &mut c, target); }
     (cfg, c)
 }
 
@@ -888,12 +927,35 @@ impl Prop for C01 {
                 "tw" | "ta" => typed_ok(want, got),
                 "attrs" => {
                     let (a, b): (Vec<&str>, Vec<&str>) = (want.split(';').collect(), got.split(';').collect());
-                    a.len() == b.len() && a.iter().zip(&b).all(|(x, y)| match x.strip_suffix(":*") {
+                    a.len() == b.len() && a.iter().zip(&b).all(|(x, y)| {
+                        // `F:C:L:mp:HEX`, an MP attribute: flags, code, length as encoded; presented as an unrecognised
+                        // attribute (`unimpl:F:C:HEX`) it has the encoded flags, code and value octets; how else it
+                        // may be presented is not content
+                        let p: Vec<&str> = x.splitn(5, ':').collect();
+                        if p.len() == 5 && p[3] == "mp" {
+                            let head = format!("{}:{}:{}:", p[0], p[1], p[2]);
+                            return match y.strip_prefix(head.as_str()) {
+                                Some(owned) => match owned.strip_prefix("unimpl:") { Some(u) => u == format!("{}:{}:{}", p[0], p[1], p[4]), None => true },
+                                None => false };
+                        }
+                        match x.strip_suffix(":*") {
                         Some(head) => y.starts_with(head) && y[head.len()..].starts_with(':'),
-                        None => x == y })
+                        None => x == y } })
                 }
-                // next-hop kind is not content: compare the address octets
-                "mnh" | "fnh" => got.replace("multi:", "uni:") == want,
+                // a section of an unsupported AFI/SAFI: no NLRI was encoded, none may be reported; the type is not judged
+                "mw" | "ma" if want == "*:-" => got == "none" || got.split_once(':').map(|x| x.1 == "-").unwrap_or(false),
+                "fams" => { let (a, b): (Vec<&str>, Vec<&str>) = (want.split(',').collect(), got.split(',').collect());
+                    a.len() == b.len() && a.iter().zip(&b).all(|(x, y)| *x == "*" || x == y) }
+                // the MP next hop of an unsupported AFI/SAFI is not judged
+                "mnh" if want == "*" => true,
+                // next-hop kind is not content: compare the address octets (`Name:*`: the answer for Name is not judged)
+                "fnh" => {
+                    let parts = |s: &str| -> Vec<String> { if s == "-" { vec![] } else { s.split('&').map(|x| x.to_string()).collect() } };
+                    let skip: Vec<String> = parts(want).iter().filter_map(|x| x.strip_suffix(":*").map(|n| format!("{}:", n))).collect();
+                    let keep = |s: &str| -> Vec<String> { parts(s).into_iter().filter(|x| !skip.iter().any(|n| x.starts_with(n.as_str()))).collect() };
+                    keep(&got.replace("multi:", "uni:")) == keep(want)
+                }
+                "mnh" => got.replace("multi:", "uni:") == want,
                 _ => got == want,
             };
             if !ok {
